@@ -6,6 +6,7 @@ CONSTANTS
   Kinds = {"close", "keep", "ws"}
   SigTwice = FALSE
   Dev = {"NoWake"}
+  Faults = {}
 SPECIFICATION Spec
 PROPERTIES Live_RunReturns
 CHECK_DEADLOCK FALSE
